@@ -431,9 +431,10 @@ ares_status_t ares_dns_name_write(ares_buf_t *buf, ares_dns_namelist_t *list,
   }
 
   /* Store pointer for future jumps as long as its not an exact match for
-   * a prior entry */
+   * a prior entry.  A compression pointer is 14 bits wide, a name that starts
+   * beyond that can't be referenced */
   if (list != NULL && (off == NULL || off->name_len != orig_name_len) &&
-      name_len > 0) {
+      name_len > 0 && pos <= 0x3FFF) {
     status =
       ares_nameoffset_create(&list->names, name /* not truncated copy! */, pos);
     if (status != ARES_SUCCESS) {
